@@ -25,8 +25,9 @@ type Op struct {
 	Kind string `json:"kind"` // store setenv unsetenv iniread parse iniwrite help man reboot
 
 	// store
-	Path string `json:"path,omitempty"`
-	Val  *V     `json:"val,omitempty"`
+	Path      string `json:"path,omitempty"`
+	Val       *V     `json:"val,omitempty"`
+	ShareWith string `json:"share_with,omitempty"` // store: this other option's field gets the very same slice (shared backing array)
 
 	// setenv / unsetenv
 	Key  string `json:"key,omitempty"`
@@ -146,7 +147,12 @@ type Outcome struct {
 
 type InjectedErr struct{ ID int }
 
-func (e *InjectedErr) Error() string { return fmt.Sprintf("injected callee error #%d", e.ID) }
+func (e *InjectedErr) Error() string {
+	if e == nil {
+		return "injected typed-nil error"
+	}
+	return fmt.Sprintf("injected callee error #%d", e.ID)
+}
 
 type RunCtx struct {
 	b      *Built
@@ -186,6 +192,14 @@ func (c *RunCtx) newInjected(what string) error {
 var flagsErrTypes = map[string]flags.ErrorType{"help": flags.ErrHelp, "required": flags.ErrRequired, "unknown": flags.ErrUnknown, "marshal": flags.ErrMarshal, "command required": flags.ErrCommandRequired}
 
 func makeInjected(id int, form string) error {
+	if form == "typed-nil" {
+		// a non-nil error interface holding a nil pointer
+		var e *InjectedErr
+		return e
+	}
+	if form == "flags:help-empty" {
+		return &flags.Error{Type: flags.ErrHelp}
+	}
 	parts := strings.SplitN(form, ":", 2)
 	if len(parts) == 2 {
 		fe := &flags.Error{Type: flagsErrTypes[parts[1]], Message: fmt.Sprintf("injected flags error #%d", id)}
@@ -441,6 +455,10 @@ func runOp(w *simrt.World, b *Built, op *Op, res *OpResult) {
 	case "store":
 		if o := b.ByPath[op.Path]; o != nil && op.Val != nil {
 			setV(o.Val, o.Spec.Kind, *op.Val)
+			if o2 := b.ByPath[op.ShareWith]; o2 != nil && o2.Val.Type() == o.Val.Type() {
+				// the program initialises two options from one slice value
+				o2.Val.Set(o.Val)
+			}
 		}
 	case "setenv":
 		w.Env[op.Key] = string(op.Text)
